@@ -9,7 +9,8 @@ dispatch, terminates cleanly and leaves the `Parallel` object reusable, while ca
 unfinished run raises `RuntimeError` instead of mixing the two runs.
 
 Model: `JoblibModel.ParallelProto` (M1): `genNext` is `next(g)`, `hook c false` a pause of the consumer (completions
-may arrive), `genClose` is `g.close()` / dropping the last reference.
+may arrive), `genClose` is `g.close()` / dropping the last reference, `exitBlock` is `Parallel.__exit__` (leaving the `with` block
+while the generator is alive, consumer op 6).
 
 Quantifier reached: ALL schedules, ALL points at which the consumer pulls / pauses / closes (any interleaving of
 `genNext`, `hook c false`, `genClose` from any state satisfying the generator invariant `GenGood`, which `callStart`
@@ -205,7 +206,7 @@ theorem close_stops_dispatch (c : Cfg) (s : St) (g : Gen) (hph : g.phase = .star
       (∀ k, ∃ lg pk ib, deliver c k s' = { s' with log := lg, parked := pk, inCb := ib })) := by
   constructor
   · rw [genClose_active c s hph]
-    obtain ⟨lg, pk, he, _⟩ := handleException_eq c s
+    obtain ⟨lg, pk, sc, ib, he, _, _⟩ := handleException_eq c s
     show (handleException c s).aborting = true
     rw [he]
   · intro s' hab
@@ -222,6 +223,42 @@ theorem close_leaves_clean {c : Cfg} {t0 : Nat} {s : St} {g : Gen} (h : GoodR c 
   rw [genClose_active c s hph]
   obtain ⟨x, y, _, w, _⟩ := raise_end (c := c) (s3 := s) h (fun _ => rfl) rfl rfl rfl rfl rfl
   exact ⟨y, x, w, rfl⟩
+
+/-- LEAVING THE `with` BLOCK while the generator is alive (`Parallel.__exit__`, consumer op 6). `__exit__` changes
+`managed`, `_calling`, the abort flags and the backend's bookkeeping only — in particular `_running` stays set (it
+is cleared by the generator's own `finally`), the job queues, the tracker table and the input position are
+untouched — and, in a generator mode with the call still in progress, the object is aborting afterwards. -/
+theorem exit_block_effect (c : Cfg) (s : St) :
+    ∃ lg pk sc ib ab abd,
+      exitBlock c s = { s with log := lg, parked := pk, sched := sc, inCb := ib, managed := false, calling := false, aborting := ab, aborted := abd } ∧
+      pk.Sublist s.parked ∧ sc.length ≤ s.sched.length ∧ (s.aborting = true → ab = true) ∧
+      (c.ra ≠ 0 → s.calling = true → ab = true) := by
+  obtain ⟨lg, pk, sc, ib, ab, abd, h1, h2, h3, h4, h5⟩ := exitBlock_eq c s
+  exact ⟨lg, pk, sc, ib, ab, abd, h1, h2, h3, h4, fun hra hc => h5 (by simp [isGen, hra]) hc⟩
+
+/-- CALL AGAIN AFTER LEAVING THE BLOCK. As long as the abandoned generator has not run its clean-up, calling the
+object again after `__exit__` raises `RuntimeError` and changes nothing: the two runs are never mixed. -/
+theorem call_again_after_exit_raises (c : Cfg) (fuel base : Nat) (spec : CallSpec) (s : St)
+    (h : s.running = true) :
+    callStart c fuel base spec (exitBlock c s) = (exitBlock c s, some .runtime) := by
+  apply callStart_running
+  obtain ⟨lg, pk, sc, ib, ab, abd, h1, _⟩ := exitBlock_eq c s
+  rw [h1]; exact h
+
+/-- LEAVING THE BLOCK STOPS DISPATCH. After `__exit__` in a generator mode with the call in progress the object is
+aborting; from then on every `dispatch_one_batch` from any thread returns without slicing the input or submitting a
+batch, and every completion delivered by the backend leaves the `Parallel` object unchanged. -/
+theorem exit_stops_dispatch (c : Cfg) (s : St) (hra : c.ra ≠ 0) (hcalling : s.calling = true) :
+    (exitBlock c s).aborting = true ∧
+    (∀ fo bs, dispatchLocked c fo bs (exitBlock c s) = (exitBlock c s, false)) ∧
+    dispatchOneCb c (exitBlock c s) = (exitBlock c s, false) ∧
+    dispatchOneMain c (exitBlock c s) = (exitBlock c s, false) ∧
+    (∀ k, ∃ lg pk ib, deliver c k (exitBlock c s) = { exitBlock c s with log := lg, parked := pk, inCb := ib }) := by
+  have hab : (exitBlock c s).aborting = true := by
+    obtain ⟨lg, pk, sc, ib, ab, abd, h1, _, _, _, h5⟩ := exitBlock_eq c s
+    rw [h1]; exact h5 (by simp [isGen, hra]) hcalling
+  exact ⟨hab, fun fo bs => dispatchLocked_aborting c fo bs hab, dispatchOneCb_aborting c hab,
+    dispatchOneMain_aborting c hab, fun k => deliver_aborting c k hab⟩
 
 /-! ### the hypotheses are satisfiable -/
 
